@@ -27,11 +27,13 @@ Recompute(e) ==
       o == e.out.acs
   IN IF ~a.ok THEN (IF ~o.ok /\ o.err = a.err THEN {} ELSE {"number_where_error_expected:" \o a.class})
      ELSE IF ~o.ok THEN {"error_where_number_expected:" \o o.err}
+     ELSE IF o.nonfinite THEN {"dhw_fraction_not_finite_where_specification_has_a_value"}
      ELSE IF Abs(o.v - Scaled(a.v, 6)) <= 200 + (Abs(o.v) \div 5000) THEN {} ELSE {"dhw_fraction_differs_from_specification"}
 
 Same(e, b) ==
   IF ~b.out.acs.ok \/ ~e.out.acs.ok THEN b.out.acs.ok = e.out.acs.ok /\ (b.out.acs.ok \/ b.out.acs.err = e.out.acs.err)
-  ELSE Abs(b.out.acs.v - e.out.acs.v) <= 200 + (Abs(b.out.acs.v) \div 5000)
+  \* (a value that is not finite - 0/0 for a degenerate, inconsistent input - is outside the claim)
+  ELSE b.out.acs.nonfinite \/ e.out.acs.nonfinite \/ Abs(b.out.acs.v - e.out.acs.v) <= 200 + (Abs(b.out.acs.v) \div 5000)
 
 Judge(e) ==
   IF ~OK(e) THEN {}
@@ -40,7 +42,7 @@ Judge(e) ==
        \cup (IF Lattice(e) /\ ~e.out.tagged /\ SpecOutcome(e) = "Ok" THEN Recompute(e) ELSE {})
        \cup (IF e.tag # "base" /\ base # <<>> /\ base.case = e.case /\ OK(base) /\ ~Same(e, base) THEN {"dhw_fraction_moves:" \o e.tag} ELSE {})
 
-Nontrivial(e) == OK(e) /\ e.out.acs.ok /\ e.out.acs.v > 0 /\ e.out.acs.v < 1000000
+Nontrivial(e) == OK(e) /\ e.out.acs.ok /\ ~e.out.acs.nonfinite /\ e.out.acs.v > 0 /\ e.out.acs.v < 1000000
 
 Init == l = 1 /\ nbad = 0 /\ base = <<>>
 Next ==
